@@ -133,3 +133,31 @@ fn finish(d: &decode::Decoded, o: &Opts, obs: &mut Obs) {
     obs.label_if(d.zooms.iter().any(|z| z.index.levels >= 2), "zoom-index-multi-level");
     obs.nontrivial = o.compress && d.chroms.len() >= 2 && !d.zooms.is_empty() && d.main_index.levels >= 2;
 }
+
+/// write the files of `n` generated cases into `dir` (for the Python decoder cross-check)
+pub fn emit_files(seed: u64, n: usize, dir: &str) -> usize {
+    use proptest::strategy::{Strategy, ValueTree};
+    use proptest::test_runner::{Config, RngAlgorithm, TestRng, TestRunner};
+    let mut key = [7u8; 32];
+    key[..8].copy_from_slice(&seed.to_le_bytes());
+    let mut runner = TestRunner::new_with_rng(Config::default(), TestRng::from_seed(RngAlgorithm::ChaCha, &key));
+    let strat = <C09 as Prop>::strategy(Tier::Quick);
+    let _ = std::fs::create_dir_all(dir);
+    let mut written = 0;
+    for i in 0..n {
+        let case = match strat.new_tree(&mut runner) {
+            Ok(t) => t.current(),
+            Err(_) => continue,
+        };
+        let sink = SharedSink::new();
+        let ok = match &case {
+            Case::Bw(c) => drive::write_bw(&c.input, &c.opts, sink.clone()).is_ok(),
+            Case::Bb(c) => drive::write_bb(&c.input, &c.opts, sink.clone()).is_ok(),
+        };
+        if ok {
+            let _ = std::fs::write(format!("{}/f{:05}.bbi", dir, i), sink.bytes());
+            written += 1;
+        }
+    }
+    written
+}
